@@ -1,6 +1,7 @@
 import SeqVerif.Base.Proto
 import SeqVerif.Model.SearchDocs
 import SeqVerif.Model.ApiSearch
+import SeqVerif.Model.MergeAggs
 /-!
 Driver for C05.  Lists: `,`; IDs `mid:rid`; QPR = `<ids>/<total>/<hist>` with hist = `nil` | `-` | `k=v,...`;
 several QPRs / fractions separated by `;`.  Requests:
@@ -125,8 +126,53 @@ def stepProxy (f : List String) : String :=
     | _, _, _, _, _, _, _, _, _, _, _ => "bad-op"
   | _ => "bad-op"
 
+/-! aggregations: `nil` | `-` | `agg&agg...`, agg = `<notExists>#<bin>+<bin>...`,
+bin = `<mid>~<token hex>~<min>~<max>~<sum>~<total>~<notExists>~<samples separated by '.'>` (min/max `x` when total = 0) -/
+
+def parseSCf (f : List String) : Option (Agg.Bin × Agg.SC) :=
+  match f with
+  | [mid, tok, mn, mx, sum, total, ne, samples] => do
+    let total ← total.toNat?
+    let mn ← if mn = "x" then some Agg.maxInt64 else mn.toInt?
+    let mx ← if mx = "x" then some Agg.minInt64 else mx.toInt?
+    pure (⟨← mid.toNat?, tok⟩, ⟨mn, mx, ← sum.toInt?, total, ← ne.toNat?, ← (splitList samples ".").mapM String.toInt?⟩)
+  | _ => none
+
+def parseAgg (s : String) : Option Agg.AS :=
+  match s.splitOn "#" with
+  | [ne, bins] => do pure ⟨← (splitList bins "+").mapM (fun b => parseSCf (b.splitOn "~")), ← ne.toNat?⟩
+  | _ => none
+
+def parseAggs (s : String) : Option (Option (List Agg.AS)) :=
+  if s = "nil" then some none else ((splitList s "&").mapM parseAgg).map some
+
+def insertBin (p : Agg.Bin × Agg.SC) : List (Agg.Bin × Agg.SC) → List (Agg.Bin × Agg.SC)
+  | [] => [p]
+  | q :: qs => if q.1.mid < p.1.mid ∨ (q.1.mid = p.1.mid ∧ q.1.token < p.1.token) then q :: insertBin p qs else p :: q :: qs
+
+def insertInt (v : Int) : List Int → List Int
+  | [] => [v]
+  | w :: ws => if w < v then w :: insertInt v ws else v :: w :: ws
+
+def fmtBin (p : Agg.Bin × Agg.SC) : String :=
+  let c := p.2
+  let mm := if c.total = 0 then "x~x" else s!"{c.min}~{c.max}"
+  s!"{p.1.mid}~{p.1.token}~{mm}~{c.sum}~{c.total}~{c.notExists}~{fmtList toString (c.samples.foldr insertInt []) "."}"
+
+def fmtAggs (a : Option (List Agg.AS)) : String :=
+  match a with
+  | none => "nil"
+  | some as => fmtList (fun (x : Agg.AS) => s!"{x.notExists}#{fmtList fmtBin (x.bins.foldr insertBin []) "+"}") as "&"
+
 def step (line : String) : String :=
   match fields line with
+  | ["mergeaggs", dst, qs] =>
+    match parseAggs dst, (splitList qs ";").mapM parseAggs with
+    | some dst, some qs =>
+      match mergeAggs dst qs with
+      | none => "panic index"
+      | some r => s!"ok {fmtAggs r}"
+    | _, _ => "bad-op"
   | "grpc" :: rest => stepGrpc rest
   | "proxyreq" :: rest => stepProxy rest
   | ["merge", desc, limit, hi, dst, qs] =>
